@@ -142,6 +142,13 @@ Theorem C16_format_reparse : forall C, cc_ok C -> forall fs e,
 Proof. exact format_reparse. Qed.
 Print Assumptions C16_format_reparse.
 
+(* the side condition of the previous theorem holds whenever linecache is a function of (file, line)
+   at the moment of observation *)
+Theorem C16_live_consistent : forall C fs,
+  raw_consistent fs = true -> src_consistent (map (std_frame C) fs) = true.
+Proof. exact live_consistent. Qed.
+Print Assumptions C16_live_consistent.
+
 Theorem C16_lineno_always_ok : forall C, cc_ok C -> forall n, lineno_ok C (dec n) = true.
 Proof. exact dec_lineno_ok. Qed.
 Print Assumptions C16_lineno_always_ok.
